@@ -22,7 +22,8 @@ CHECKS = {
         note='Bounds: parse_number free ASCII <= 12 chars (thorough 24) + structured families reaching the i64 boundaries (0x+18 alnum, 21 '
              'decimal digits, 0+23 octal digits); parse_until_tag_end <= 3 (4) arbitrary Unicode scalars.  Trusted: ParseState cursor contracts '
              '(mirsym/ps_env.py; established on the compiled code by the Kani harnesses of C16), str::parse::<f64> = any f64 or Err, '
-             'CustomAttribute::parse_next consumes >= 1 char.  Findings are replayed natively (dev profile).  Supporting, not solver-decided: the ~500 templates the J checks enumerate are run through parse/generate/stringify of the real build; a panic is reported as a replayed violation.',
+             'CustomAttribute::parse_next consumes >= 1 char.  Findings are replayed natively (dev profile).  Supporting, not solver-decided: the ~500 templates the J checks enumerate are run through parse/generate/stringify of the real build; a panic is reported as a replayed violation.'
+             ' Added: M01h - open-environment execution of the stylesheet routines parse_qualified_rule / parse_at_rule (<= 3 tokens per level, every token kind incl. unmatched closers): each call from parse_rules consumes >= 1 token and no panic is reachable; witnesses are replayed through from_css in an own process under a 10 s limit (hang detection).  Kernel sweep: the execution obligations (panic / assert / unwinding / cursor progress) of parse_lit_str (<= 6, thorough 8 chars), parse_next_entity, path::resolve / normalize are decided here as well and replayed through templates.',
         technique='symbolic execution of MIR with state merging + SMT (z3), native replay',
         design='§4 C01 (M01b, M01e)',
     ),
@@ -37,7 +38,8 @@ CHECKS = {
              'validity is outside (see DESIGN C02).',
         note='Trusted: the MIR text printed by rustc for the current tree; the contract table entries String::new/push/insert/'
              'as_str, <str as PartialEq>::eq, slice::contains; integers as mathematical ints with overflow asserts as obligations. '
-             'Bound: id < 2^24, loop unwinding 8 with unwinding assertion.  Counterexamples are replayed through the real function.',
+             'Bound: id < 2^24, loop unwinding 8 with unwinding assertion.  Counterexamples are replayed through the real function.'
+             ' Supporting, not solver-decided: operator adjacency probe - every unary operator under every binary / unary operator is compiled and the emitted module is parsed by node in sloppy and strict mode (a SyntaxError is a replayed violation on a concrete template).',
         technique='symbolic execution of MIR + SMT (z3 Int encoding), counterexample replay on the native build',
         design='§4 C02 (M02a)',
     ),
@@ -52,7 +54,8 @@ CHECKS = {
         note='Trusted: the emitted-subset parser/interpreter of jssym/, the value datatype and its truthiness/nullish definitions, the precedence '
              'table of the model printer; helper functions X Y Z P Q are interpreted from the real get_runtime_string().  Programs are bounded '
              '(depth 2; quick tier: seeded sample of 700 depth-2 expressions + all depth-1 forms and literals).  Operators\' numeric results, '
-             'spreads of non-array iterables and the TypeScript runtime are outside.',
+             'spreads of non-array iterables and the TypeScript runtime are outside.'
+             ' Probe fallback: a program whose emitted code the translator cannot execute is compared with the reference in node over the edge pool (which contains Object.prototype member names); a difference is a replayed violation, otherwise the program is inconclusive.',
         technique='SMT translation validation of emitted JavaScript (symbolic data) + MIR symbolic execution for literals; node replay',
         design='§4 C03',
     ),
